@@ -12,6 +12,7 @@ Decided (DESIGN.md §C12): the explicit integrator Phreeqc::rk_kinetics is a *co
   C12.partialstep  blocks that shorten the step before the early-exit tests also clear equal_rate (else a one-step exit
                 integrates only part of the interval)
   C12.trialreset every Runge-Kutta stage evaluation is followed by the restore of the saved pure-phase / solid-solution assemblages
+  C12.savefree  after saver() both saved assemblages are freed and none is copied back (found the 2nd-order equal-rate exit defect)
   C12.clamp     the exhaustion cap of calc_final_kinetic_reaction tests and assigns the same bound
   C12.errmax    the step-acceptance error is the running maximum over all reactants (reset before, max-update inside the loop)
   C12.cvode     CVODE restart loop: elapsed time and restored state come from the same checkpoint (cvode_last_good_*), the
@@ -611,6 +612,7 @@ def run(P, R, tier):
     errmax_rule(P, R)
     clamp_rule(P, R)
     trialreset_rule(P, R)
+    savefree_rule(P, R)
 
 
 def trialreset_rule(P, R, RULE="C12.trialreset"):
@@ -653,6 +655,52 @@ def trialreset_rule(P, R, RULE="C12.trialreset"):
             R.violation(RULE, inst, "the stage evaluation at line %d is not followed by the restore of the saved %s assemblage before the next evaluation / the error estimate: the accepted "
                         "step is evaluated on an assemblage that already holds a trial's transfer (counted twice)" % (stm[i][1], " and ".join("pure-phase" if w == "pp" else "solid-solution" for w in miss)),
                         line=stm[i][1], **where)
+
+
+def savefree_rule(P, R, RULE="C12.savefree"):
+    """saver() stores the accepted result of a step.  From then on the copies taken before the step (pp_assemblage_save,
+    ss_assemblage_save) are obsolete: every exit of rk_kinetics that calls saver() frees both of them and none may copy a
+    saved assemblage back into the store afterwards - that would revert the solid phase while the solution keeps the reacted
+    composition (elements created or lost)."""
+    R.rule(RULE, "rk_kinetics: after saver() both saved assemblages are freed and neither is copied back into the store", minimum=4)
+    f = P.one("Phreeqc::rk_kinetics")
+    where = dict(file=f["file"], function=f["q"])
+    n = 0
+    for blk in T.walk(f["body"]):
+        if blk[0] != "Compound":
+            continue
+        stm = [s_ for s_ in blk[2] if T.is_node(s_)]
+        idx = [i for i, s_ in enumerate(stm) if s_[0] == "Call" and T.callee_name(s_) == "saver"]
+        for i in idx:
+            n += 1
+            seg = []
+            for s_ in stm[i + 1:i + 7]:
+                seg.append(s_)
+                if s_[0] in ("Goto", "Return", "Break", "Continue"):
+                    break
+            # only the exits that dispose of the pre-step copies: the segment tests one of the saves
+            if not any(s_[0] == "If" and "_assemblage_save" in T.text(s_[2]) for s_ in seg):
+                n -= 1
+                continue
+            inst = "saver@%d" % stm[i][1]
+            back = [c for s_ in seg for c in T.calls(s_) if T.callee_name(c) == "operator=" and "_assemblage_save" in T.text(c) and "_assemblage_map" in T.text(c)]
+            freed = set()
+            for s_ in seg:
+                for y in T.walk(s_):
+                    if y[0] == "Delete":
+                        for z in T.walk(y):
+                            nm = z[2].split("::")[-1] if z[0] == "Member" else (z[3] if z[0] == "Ref" and len(z) > 3 and isinstance(z[3], str) else "")
+                            if nm in ("pp_assemblage_save", "ss_assemblage_save"):
+                                freed.add(nm[:2])
+            if back:
+                R.violation(RULE, inst, "after saver() (line %d) a saved assemblage is copied back into the store at line %d: the solid phase reverts to its state before the step while the "
+                            "solution keeps the reacted composition" % (stm[i][1], back[0][1]), line=back[0][1], **where)
+            elif freed == {"pp", "ss"}:
+                R.ok(RULE, inst, "both saves freed")
+            else:
+                R.violation(RULE, inst, "after saver() (line %d) the saved %s assemblage is not freed" % (stm[i][1], " / ".join(sorted({"pp", "ss"} - freed))), line=stm[i][1], **where)
+    if n < 4:
+        R.anchor_missing(RULE, "rk_kinetics: only %d saver() calls found" % n)
 
 
 def clamp_rule(P, R):
